@@ -14,7 +14,15 @@ Ev == TraceLog[l]
 IsEvent(e) == l <= Len(TraceLog) /\ Ev.e = e /\ l' = l + 1
 
 TReset == /\ IsEvent("Reset") /\ ver' = <<>> /\ live' = {} /\ dead' = FALSE /\ tainted' = FALSE /\ UNCHANGED nbad
+(* what the library's own accessors must report about a version of this content (cached length, end pointers,
+   deletability of every key): logged as "prb" with every new version and as third component of every chg entry *)
+Probe(x) == CASE Kind = "deque" -> <<Len(x), IF x = <<>> THEN -1 ELSE x[1], IF x = <<>> THEN -1 ELSE x[Len(x)]>>
+              [] Kind = "queue" -> <<IF x = <<>> THEN -1 ELSE x[1], IF x = <<>> THEN -1 ELSE x[Len(x)]>>
+              \* <<red-black shape intact, size, number of keys that can be deleted>>
+              [] Kind = "map" -> <<1, Cardinality(DOMAIN x), Cardinality(DOMAIN x)>>
+              [] OTHER -> <<>>
 ChgIdx == {Ev.chg[j][1] : j \in DOMAIN Ev.chg}
+ChgPrb(i) == Ev.chg[CHOOSE j \in DOMAIN Ev.chg : Ev.chg[j][1] = i][3]
 ChgVal(i) == Ev.chg[CHOOSE j \in DOMAIN Ev.chg : Ev.chg[j][1] = i][2]
 UpdIdx(r) == {r.upd[j][1] : j \in DOMAIN r.upd}
 UpdVal(r, i) == r.upd[CHOOSE j \in DOMAIN r.upd : r.upd[j][1] = i][2]
@@ -25,6 +33,8 @@ Why(r) == IF Ev.err # 0 THEN "error"
           ELSE IF Ev.obs \notin r.obs THEN "obs"
           ELSE IF Ev.val # [i \in 1..Len(r.new) |-> Canon(r.new[i])] THEN "val"
           ELSE IF \E i \in ((ChgIdx \cup UpdIdx(r)) \cap live) \ r.kill : ImplPost(i) # ModelPost(r, i) THEN "clobber"
+          ELSE IF Ev.prb # [i \in 1..Len(r.new) |-> Probe(r.new[i])] THEN "probe"
+          ELSE IF \E i \in (ChgIdx \cap live) \ r.kill : ChgPrb(i) # Probe(From(ChgVal(i))) THEN "probe"
           ELSE "ok"
 (* the store continues with what the implementation reported (= the model's values when the step was accepted) *)
 Reported(r) == Ev.err = 0 /\ Len(Ev.val) = Len(r.new) /\ (\A i \in DOMAIN Ev.val : WF(Ev.val[i]))
